@@ -60,6 +60,9 @@ type c11Params struct {
 	EncFields  []string `json:"enc_fields,omitempty"` // mode "fields" and "both"
 	Create     []string `json:"create"`               // fields present at create (name is always present)
 	CreateAPI  string   `json:"create_api,omitempty"` // "col" | "gql"
+	// NullAtCreate: register fields given an explicit null at create (collection API only). The null
+	// is a write: the field gets its genesis block (and, when individually encrypted, its key) there.
+	NullAtCreate []string `json:"null_at_create,omitempty"`
 	Ops        []c11Op  `json:"ops"`
 	// Receiver: "keyless" | "keys-event" (harness answers enc-keys-request with A's key blocks) |
 	// "keys-store" (A's key blocks are put into B's /db/enc before the merge) | "partial" (keys of PartialKeys only)
@@ -120,6 +123,9 @@ func c11Anchors() []core.Case {
 			Ops: []c11Op{{Set: []string{"s", "t", "i", "f"}}, {Set: []string{"s", "i"}}}, Receiver: "partial", PartialKeys: []string{"s", "f"}}),
 		mk("fields-declared-encrypted-but-first-written-by-update", c11Params{Mode: "fields", EncFields: []string{"s", "t", "pf"}, Create: []string{"s", "i"},
 			Ops: []c11Op{{Set: []string{"t", "pf"}}, {Set: []string{"s", "t", "pf"}}}, Receiver: "keyless"}),
+		// individually encrypted fields that are explicitly null at create and get their first value by an update
+		mk("fields-explicitly-null-at-create", c11Params{Mode: "fields", EncFields: []string{"s", "f", "j"}, Create: []string{"i"}, NullAtCreate: []string{"s", "f", "j"},
+			Ops: []c11Op{{Set: []string{"s", "f"}}, {Set: []string{"j", "s"}}, {Set: []string{"f", "j"}}}, Receiver: "keyless"}),
 		mk("doc-and-dedicated-field-keys", c11Params{Mode: "both", EncFields: []string{"s", "pc"}, Create: []string{"s", "i"},
 			Ops: []c11Op{{Set: []string{"s", "t", "pc", "pf"}}, {Set: []string{"s", "t", "pc"}}}, Receiver: "keys-event"}),
 		mk("branchable-doc-keyless", c11Params{Branchable: true, Mode: "doc", Create: []string{"s", "i"},
@@ -160,6 +166,17 @@ func c11Cases(seed uint64, tier string) []core.Case {
 		p.Create = pick(others, []float64{0.3, 0.6, 1}[rng.IntN(3)])
 		if rng.IntN(4) == 0 {
 			p.CreateAPI = "gql"
+		} else if rng.IntN(2) == 0 {
+			// register fields absent from the create get an explicit null there
+			for _, f := range registers {
+				in := false
+				for _, g := range p.Create {
+					in = in || g == f
+				}
+				if !in && rng.IntN(2) == 0 {
+					p.NullAtCreate = append(p.NullAtCreate, f)
+				}
+			}
 		}
 		nops := 1 + rng.IntN(5)
 		for o := 0; o < nops; o++ {
@@ -355,6 +372,8 @@ type c11Run struct {
 	model   map[string]any
 	written map[string]bool // field has been written at least once
 	late    map[string]bool // field was absent at create and first written by an update
+	// nullAtCreate: field was given an explicit null at create (its first value arrives by an update)
+	nullAtCreate map[string]bool
 	flagged map[string]bool
 	ctlMiss bool
 }
@@ -387,6 +406,8 @@ func (x *c11Run) newSecret(field string, opIdx int, control bool, node string) *
 	origin := "field-written-at-create"
 	if x.late[field] {
 		origin = "field-first-written-by-update"
+	} else if x.nullAtCreate[field] {
+		origin = "field-explicitly-null-at-create"
 	}
 	s := &c11Secret{Field: field, Kind: c11Kind[field], Value: v, Desc: desc, When: when, Origin: origin, Op: opIdx, Needles: nd, Control: control, Node: node}
 	x.secrets = append(x.secrets, s)
@@ -726,7 +747,7 @@ func (k *c11KeyServer) close() { k.bus.Unsubscribe(k.sub) }
 func runC11(ctx context.Context, c core.Case, r *core.Rec) {
 	var p c11Params
 	c.P(&p)
-	x := &c11Run{ctx: ctx, p: p, r: r, g: c11Gen{c.Rng()}, model: map[string]any{}, written: map[string]bool{}, late: map[string]bool{}, flagged: map[string]bool{}}
+	x := &c11Run{ctx: ctx, p: p, r: r, g: c11Gen{c.Rng()}, model: map[string]any{}, written: map[string]bool{}, late: map[string]bool{}, nullAtCreate: map[string]bool{}, flagged: map[string]bool{}}
 	a := core.NewNode(ctx, core.NodeOpts{})
 	defer a.Close()
 	x.a = a
@@ -753,6 +774,16 @@ func runC11(ctx context.Context, c core.Case, r *core.Rec) {
 		createFields = c11NoInts(createFields)
 	}
 	vals, ss := x.setArgs(c11Op{Set: createFields}, -1, "doc", "A")
+	if p.CreateAPI != "gql" {
+		for _, f := range p.NullAtCreate {
+			vals[f] = nil
+			x.written[f] = true
+			x.nullAtCreate[f] = true
+			if p.encrypted(f) {
+				r.Count("encrypted_field_explicitly_null_at_create", 1)
+			}
+		}
+	}
 	create := func() error {
 		if p.CreateAPI == "gql" {
 			x.docID, err = x.gqlCreate(a, vals, true)
@@ -1101,7 +1132,7 @@ func init() {
 			"distinct by (mode, encrypted fields, branchable, fields absent at create, update pattern, receiver).",
 		Cases: c11Cases,
 		Run:   runC11,
-		Floors: []string{"control_ok", "control_found_string", "control_found_int", "control_found_float", "control_found_json", "control_found_counter-int", "control_found_counter-float",
+		Floors: []string{"control_ok", "encrypted_field_explicitly_null_at_create", "control_found_string", "control_found_int", "control_found_float", "control_found_json", "control_found_counter-int", "control_found_counter-float",
 			"first_write_by_update_doc_level", "receiver_keyless", "receiver_key_holding", "receiver_partial_keys", "keys_checked", "updates_of_encrypted_fields",
 			"event_blocks_scanned", "receiver_updates", "nontrivial_histories"},
 		CaseTimeout: 10 * time.Minute, // a case is < 1 s of work; the watchdog must not fire because the machine is loaded
